@@ -169,7 +169,8 @@ def build_inputs(case, wd, hkeys=None):
         rows = [{"id": r["id"], "spec": r["spec"], "pep": r.get("pep", r["id"]), "tgt": r["tgt"], "file": c,
                  "feats": [float(r["id"])] + [float(v) for v in r["f"]]} for r in fl["rows"]]
         key = KEYS[case.get("keyw", 2)]
-        df = mk.build_table(rows, label_enc=case.get("label_enc", "1/-1"), nfeat=nfeat, key_cols=key)
+        df = mk.build_table(rows, label_enc=case.get("label_enc", "1/-1"), nfeat=nfeat, key_cols=key,
+                            share2=bool(case.get("share2")) and len(key) >= 3)
         if "ExpMass" not in key:
             df = df.drop(columns=["ExpMass"])
         if hkeys is not None:
